@@ -777,7 +777,7 @@ func runC17(c *Ctx) {
 
 func init() {
 	Register(&Monitor{ID: "C17", Run: func(c *Ctx) {
-		c.Rule = "exhaustive matrix of Ion values x Go target types x {text, binary} x {Unmarshal, UnmarshalString, Decoder.DecodeTo}, each cell classified from the documented mapping as must-succeed-faithfully / must-error (overflow, sign, float32 overflow, symbol without text into string, type mismatch) / if-no-error-then-faithful / open (no panic only); the stored Go value is compared with the Ion value through its Ion image; Decoder streams must yield exactly their values and then ErrNoInput repeatedly; random Go values of random and catalogued types (deep embedding, named kinds, tags) whose Ion image is spelled by the reference producers with fields reordered and then unmarshalled into a fresh value of the type, which has to come out equal. Every cell is off-diagonal or at a boundary by construction; distinct by cell."
+		c.Rule = "exhaustive matrix of Ion values x Go target types x {text, binary} x {Unmarshal, UnmarshalString, Decoder.DecodeTo}, each cell classified from the documented mapping as must-succeed-faithfully / must-error (overflow, sign, float32 overflow, symbol without text into string, type mismatch) / if-no-error-then-faithful (a float into a Decimal: the digits stored have to denote that float) / open (no panic only); the stored Go value is compared with the Ion value through its Ion image; Decoder streams must yield exactly their values and then ErrNoInput repeatedly; random Go values of random and catalogued types (deep embedding, named kinds, tags) whose Ion image is spelled by the reference producers with fields reordered and then unmarshalled into a fresh value of the type, which has to come out equal. Every cell is off-diagonal or at a boundary by construction; distinct by cell."
 		c.Assume("open cells (null into non-nillable targets, lobs/lists into arrays of another length, float into Decimal, struct into a wrapper-shaped struct, the README's []string annotations field) only demand the absence of a panic")
 		runC17(c)
 	}, Replay: func(c *Ctx, v *Violation) string {
